@@ -707,10 +707,14 @@ class HistogramBase(abc.ABC):
         """Whether two histograms share the same binning."""
         if self.shape != other.shape:
             return False
-        elif self.ndim == 1:
-            return np.allclose(self.bins, other.bins)
-        for i in range(self.ndim):
-            if not np.allclose(self.bins[i], other.bins[i]):
+        for mine, theirs in zip(self._binnings, other._binnings):
+            a, b = mine.bins, theirs.bins
+            if a.size == 0:
+                continue
+            # Edges may differ by rounding, not by a noticeable part of a bin
+            widths = np.concatenate([a[:, 1] - a[:, 0], b[:, 1] - b[:, 0]])
+            tolerance = max(1e-9 * widths.min(), 4 * np.spacing(np.abs(a).max()))
+            if not np.allclose(a, b, rtol=0, atol=tolerance):
                 return False
         return True
 
